@@ -69,6 +69,8 @@ type Env struct {
 	fallB        *Block
 	deferInit    []string
 	useDep       bool
+	usesDep      bool
+	usesLemma    bool
 	constVals    map[types.Object]Value
 	assignCount  map[types.Object]int
 	localTypes   map[string]types.Type
@@ -279,6 +281,9 @@ func (e *Env) tmp(t *Term) *Term {
 }
 
 func (e *Env) freeze(v Value) Value {
+	if v.Base != nil {
+		v.Base, v.Rel = e.tmp(v.Base), e.tmp(v.Rel)
+	}
 	switch v.K {
 	case VInt, VBool, VU, VPtr, VStruct:
 		v.T = e.tmp(v.T)
